@@ -112,7 +112,7 @@ func (p *gcpPicker) Pick(info balancer.PickInfo) (balancer.PickResult, error) {
 			bindKeys, err := getAffinityKeysFromMessage(locator, gcpCtx.replyMsg)
 			if err == nil {
 				for _, bk := range bindKeys {
-					p.gb.bindSubConn(bk, scRef.subConn)
+					p.gb.bindSubConnRef(bk, scRef)
 				}
 			}
 		case grpc_gcp.AffinityConfig_UNBIND:
@@ -120,17 +120,18 @@ func (p *gcpPicker) Pick(info balancer.PickInfo) (balancer.PickResult, error) {
 		}
 	}
 
+	sc := scRef.getSubConn()
 	if p.log.V(FINEST) {
-		p.log.Infof("picked SubConn: %p", scRef.subConn)
+		p.log.Infof("picked SubConn: %p", sc)
 	}
-	return balancer.PickResult{SubConn: scRef.subConn, Done: callback}, nil
+	return balancer.PickResult{SubConn: sc, Done: callback}, nil
 }
 
 // unresponsiveWindow returns channel pool's unresponsiveDetectionMs multiplied
 // by 2^(refresh count since last response) as a time.Duration. This provides
 // exponential backoff when RPCs keep deadline exceeded after consecutive reconnections.
-func (p *gcpPicker) unresponsiveWindow(scRef *subConnRef) time.Duration {
-	factor := uint32(1 << scRef.refreshCnt)
+func (p *gcpPicker) unresponsiveWindow(refreshCnt uint32) time.Duration {
+	factor := uint32(1 << refreshCnt)
 	return time.Millisecond * time.Duration(factor*p.gb.cfg.GetChannelPool().GetUnresponsiveDetectionMs())
 }
 
@@ -146,14 +147,15 @@ func (p *gcpPicker) detectUnresponsive(ctx context.Context, scRef *subConnRef, c
 		return
 	}
 
-	if callStarted.Before(scRef.lastResp) {
+	lastResp, refreshCnt := scRef.respInfo()
+	if callStarted.Before(lastResp) {
 		return
 	}
 
 	// Increment deadline exceeded calls and check if there were enough deadline
 	// exceeded calls and enough time passed since last response to trigger refresh.
 	if scRef.deCallsInc() >= p.gb.cfg.GetChannelPool().GetUnresponsiveCalls() &&
-		scRef.lastResp.Before(time.Now().Add(-p.unresponsiveWindow(scRef))) {
+		lastResp.Before(time.Now().Add(-p.unresponsiveWindow(refreshCnt))) {
 		p.gb.refresh(scRef)
 	}
 }
@@ -162,7 +164,7 @@ func (p *gcpPicker) getAndIncrementSubConnRef(ctx context.Context, boundKey stri
 	if cmd == grpc_gcp.AffinityConfig_BIND && p.gb.cfg.GetChannelPool().GetBindPickStrategy() == grpc_gcp.ChannelPoolConfig_ROUND_ROBIN {
 		scRef := p.gb.getSubConnRoundRobin(ctx)
 		if p.log.V(FINEST) {
-			p.log.Infof("picking SubConn for round-robin bind: %p", scRef.subConn)
+			p.log.Infof("picking SubConn for round-robin bind: %p", scRef.getSubConn())
 		}
 		scRef.streamsIncr()
 		return scRef, nil
